@@ -489,6 +489,17 @@ pub(crate) trait ThriftCompactInputProtocol<'a> {
         }
     }
 
+    /// Skip one element of a list, set or map, recursively up to `depth` levels.
+    ///
+    /// Unlike boolean struct fields, whose value is part of the field header, boolean
+    /// collection elements are encoded as one byte each (see [`Self::read_bool`]).
+    fn skip_element(&mut self, element_type: ElementType, depth: i8) -> ThriftProtocolResult<()> {
+        match element_type {
+            ElementType::Bool if depth > 0 => self.skip_bytes(1),
+            _ => self.skip_till_depth(FieldType::from(element_type), depth),
+        }
+    }
+
     /// Skip a field with type `field_type` recursively up to `depth` levels.
     fn skip_till_depth(&mut self, field_type: FieldType, depth: i8) -> ThriftProtocolResult<()> {
         if depth == 0 {
@@ -520,9 +531,8 @@ pub(crate) trait ThriftCompactInputProtocol<'a> {
             // see https://github.com/apache/thrift/blob/master/doc/specs/thrift-compact-protocol.md#list-and-set
             FieldType::List | FieldType::Set => {
                 let list_ident = self.read_list_begin()?;
-                let element_type = FieldType::from(list_ident.element_type);
                 for _ in 0..list_ident.size {
-                    self.skip_till_depth(element_type, depth - 1)?;
+                    self.skip_element(list_ident.element_type, depth - 1)?;
                 }
                 Ok(())
             }
@@ -531,11 +541,11 @@ pub(crate) trait ThriftCompactInputProtocol<'a> {
                 let size = i32::try_from(self.read_vlq()?)?;
                 if size > 0 {
                     let kv = self.read_byte()?;
-                    let key_type = FieldType::from(ElementType::try_from(kv >> 4)?);
-                    let val_type = FieldType::from(ElementType::try_from(kv & 0xf)?);
+                    let key_type = ElementType::try_from(kv >> 4)?;
+                    let val_type = ElementType::try_from(kv & 0xf)?;
                     for _ in 0..size {
-                        self.skip_till_depth(key_type, depth - 1)?;
-                        self.skip_till_depth(val_type, depth - 1)?;
+                        self.skip_element(key_type, depth - 1)?;
+                        self.skip_element(val_type, depth - 1)?;
                     }
                 }
                 Ok(())
